@@ -1,7 +1,8 @@
 SPECIFICATION Spec
 CONSTANTS Ks = {30, 31, 32, 53, 61, 62, 63, 64}
           SKs = {7, 8, 15, 16, 29, 30}
-          GroupSize = 7
+          GroupSize = 9
+          Rich = FALSE
           Stride = 1
           Offset = 0
 INVARIANT Covers
